@@ -41,12 +41,17 @@ def to_regex(p, vars_, depth=0):
             out.append(re.escape(p[i + 1]))
             i += 2
         elif c == '*':
-            if i + 1 < n and p[i + 1] == '*':
-                out.append('.*')
-                i += 2
+            # as the reference parser translates it (apparmor_parser -D rule-exprs): a glob that is alone in its path component -
+            # right behind a slash and followed by a slash or the end of the pattern - matches at least one character, and
+            # that character is not a slash: `/a/**/b` does not match `/a/b`, `/a/*` does not match `/a/`
+            two = i + 1 < n and p[i + 1] == '*'
+            nxt = i + (2 if two else 1)
+            alone = i >= 1 and p[i - 1] == '/' and ((nxt == n and depth == 0) or (nxt < n and p[nxt] == '/'))
+            if two:
+                out.append('[^/][\\s\\S]*' if alone else '[\\s\\S]*')
             else:
-                out.append('[^/]*')
-                i += 1
+                out.append('[^/]+' if alone else '[^/]*')
+            i = nxt
         elif c == '?':
             out.append('[^/]')
             i += 1
